@@ -301,7 +301,8 @@ MC = {
              ["NeverStale", "NeverStuck", "FlagsMatchJobs"]),
             # payload filters also search the cached converter output: tags that matched output which is dropped later (detach,
             # reset, executable removed) must be evaluated again
-            ("conv-payload", {"TagNames": '{"tag/a", "tag/b"}', "ConvNames": '{"cv"}', "MaxCalls": 3, "MaxViews": 0, "Menu": '"conv"', "Invalid": "FALSE",
+            # (two calls in the quick tier; three and four calls: MC_THOROUGH)
+            ("conv-payload", {"TagNames": '{"tag/a", "tag/b"}', "ConvNames": '{"cv"}', "MaxCalls": 2, "MaxViews": 0, "Menu": '"conv"', "Invalid": "FALSE",
                               "Extra": '{"convdir"}'},
              ["NeverStaleAtRest", "NeverStuck", "FlagsMatchJobs"])],
     "C09": [("tags3", {"TagNames": '{"tag/a", "tag/b"}', "ConvNames": "{}", "MaxCalls": 3, "MaxViews": 0, "Menu": '"tags"', "Invalid": "FALSE"},
@@ -320,8 +321,9 @@ MC = {
     "C11": [("calls", {"TagNames": '{"tag/a", "mark/m"}', "ConvNames": "{}", "MaxCalls": 3, "MaxViews": 0, "Menu": '"tags"', "Invalid": "TRUE"},
              ["GraphWellFormed"]),
             # rename / colour: a rename moves the tag record and the reverse references; a job in flight for the old name is dropped
+            # (colour calls next to renames: MC_THOROUGH)
             ("rename", {"TagNames": '{"tag/a", "tag/b"}', "ConvNames": "{}", "MaxCalls": 3, "MaxViews": 0, "Menu": '"tags"', "Invalid": "TRUE",
-                        "Extra": '{"rename", "color"}'},
+                        "Extra": '{"rename"}'},
              ["GraphWellFormed", "NeverStale", "NeverStuck", "FlagsMatchJobs"])],
     "C13": [("files", {"TagNames": '{"tag/a"}', "ConvNames": "{}", "MaxCalls": 3, "MaxViews": 2, "Menu": '"files"', "Invalid": "FALSE"},
              ["NoUseAfterFree", "Balanced", "DirExactWhenQuiet", "NoLeak"]),
@@ -368,9 +370,15 @@ MC_THOROUGH = {
               "OneIdPerConn", "DirExactWhenQuiet", "PROPERTY:StreamsKeptProp"])],
     "C06": [("subs", {"TagNames": '{"tag/a", "tag/b"}', "ConvNames": "{}", "MaxCalls": 3, "MaxViews": 0, "Menu": '"subs"', "Invalid": "FALSE"},
              ["NeverStale", "GraphWellFormed", "NeverStuck", "FlagsMatchJobs"]),
+            ("conv-payload3", {"TagNames": '{"tag/a", "tag/b"}', "ConvNames": '{"cv"}', "MaxCalls": 3, "MaxViews": 0, "Menu": '"conv"', "Invalid": "FALSE",
+                               "Extra": '{"convdir"}'},
+             ["NeverStaleAtRest", "NeverStuck", "FlagsMatchJobs"]),
             ("conv-payload4", {"TagNames": '{"tag/a", "tag/b"}', "ConvNames": '{"cv"}', "MaxCalls": 4, "MaxViews": 0, "Menu": '"conv"', "Invalid": "FALSE",
                                "Extra": '{"convdir"}'},
              ["NeverStaleAtRest", "NeverStuck", "FlagsMatchJobs"])],
+    "C11": [("rename-color", {"TagNames": '{"tag/a", "tag/b"}', "ConvNames": "{}", "MaxCalls": 3, "MaxViews": 0, "Menu": '"tags"', "Invalid": "TRUE",
+                              "Extra": '{"rename", "color"}'},
+             ["GraphWellFormed", "NeverStale", "NeverStuck", "FlagsMatchJobs"])],
     "C16": [("conv-marks-views", {"TagNames": '{"tag/a", "mark/m"}', "ConvNames": '{"cv"}', "MaxCalls": 3, "MaxViews": 1, "Menu": '"conv"', "Invalid": "FALSE"},
              ["ConvEventually", "NeverStuck", "FlagsMatchJobs", "NoUseAfterFree", "Balanced", "GraphWellFormed", "NeverStaleAtRest"])],
     "C09": [("liveness-conv", {"TagNames": '{"tag/a"}', "ConvNames": '{"cv"}', "MaxCalls": 2, "MaxViews": 0, "Menu": '"conv"', "Invalid": "FALSE"}, [])],
